@@ -2,13 +2,16 @@
 
 Graphs are *specs* (plain data, so that an equal graph can be rebuilt at will) over the class zoo of
 bounded/zoo_graphs.py.  A spec is {"label": str, "nodes": [node, ...]}; the last node is the root.  A node is
-    {"cls": zoo class name, "vals": {scalar parameter: value}, "refs": {parameter: j | [j, ...] | {key: j}},
+    {"cls": zoo class name, "vals": {scalar parameter: value}, "refs": {parameter: j | [j, ...] | {key: j} | nested containers},
      "meta": None/True/False, "pre": [j, ...] (pre-tasks), "init": [j, ...] (init tasks, tasks only),
      "submit": bool (inner task: submitted in dry-run mode when built; referrers see what submit() returned)}
 References to a node of lower index are given to the constructor, references to the node itself or to a node of
 higher index are assigned afterwards (that is how cycles and self-loops are made).
 
-The four checks are run_c12, run_c13, run_c14, run_c17 (tier, seed) -> dict.
+The four checks are run_c12, run_c13, run_c14, run_c17 (tier, seed) -> dict.  They run inside a dry-run experiment; run_c14
+also runs duplicate submissions in a real experiment (NORMAL run mode, tiny jobs) in a subprocess: see _c14_dup.
+Spec families: handcrafted, gen_positions, gen_cross_task, gen_nested (containers nested in containers), opt_defaults
+(optional parameters with a non-None default set to None), dup_pretask, dual_use, and random draws (rand_spec).
 
 KNOWN: failure name -> True switches the corresponding family/check off (default False: still checked).
 """
@@ -40,30 +43,39 @@ PATHS = [Path("/data/p"), Path("rel/x.txt"), Path("."), Path("/a b/ü"), "/from/
 KEYS = ["a", "b", "0", "value", "é", "k.1", "__pre_tasks__"]  # never "type" (recorded finding); plain names (no "/")
 LISTS = [[], [1, 2], [0, 0], [2**40, -1]]
 DICTS = [{}, {"a": 1}, {"value": 2, "b": 3}, {"0": 0}]
+NESTED_KEYS = ["a", "0", "1"]  # keys of inner dicts: few, so that two inner dicts have a key in common; "0"/"1" look like list indexes
+
+# OptLeaf: optional parameter -> (its non-None default, another value)
+OPT_PARAMS = {
+    "od": (10, 5), "of": (0.25, 1.5), "os": ("dflt", ""), "ob": (True, False), "op": (Path("/dflt/p"), Path("rel/x.txt")),
+    "ol": ([1, 2], []), "odd": ({"a": 1}, {}), "mo": (3, 0), "oo": ("o", "x"), "on": (None, 7),
+}
 
 SUB, ANY, LWT, INIT, LOOPA, LOOPB = "sub", "any", "lw", "init", "loopA", "loopB"
 
 # what the *handle* of a node (the object referrers see) can be used for
 CAPS = {
-    "Leaf": {SUB, ANY}, "GenLeaf": {SUB, ANY}, "Node": {SUB, ANY}, "GenNode": {SUB, ANY},
+    "Leaf": {SUB, ANY}, "GenLeaf": {SUB, ANY}, "OptLeaf": {SUB, ANY}, "Node": {SUB, ANY}, "GenNode": {SUB, ANY}, "GenGrid": {SUB, ANY},
     "LoopA": {SUB, ANY, LOOPA}, "LoopB": {SUB, ANY, LOOPB},
     "LW": {ANY, LWT, INIT}, "LWGen": {ANY, LWT, INIT},
-    "TaskPlain": {ANY, INIT}, "TaskNoGen": {ANY, INIT},
+    "TaskPlain": {ANY, INIT}, "TaskNoGen": {ANY, INIT}, "TaskGrid": {ANY, INIT},
     "TaskOut": {SUB, ANY}, "TaskOutGen": {SUB, ANY}, "TaskOutPre": {SUB, ANY},
 }
 # reference slots: (parameter, kind)
 SLOTS = {
-    "Leaf": [], "GenLeaf": [],
+    "Leaf": [], "GenLeaf": [], "OptLeaf": [],
     "Node": [("r", "sub1"), ("a", "sub?"), ("items", "subL"), ("table", "subD"), ("anyc", "any?"), ("ma", "sub?")],
     "GenNode": [("a", "sub?"), ("items", "subL"), ("table", "subD")],
+    "GenGrid": [("grid", "subLL"), ("groups", "subDL"), ("rows", "subLD"), ("dd", "subDD"), ("cube", "subLLL")],
+    "TaskGrid": [("a", "any?"), ("items", "subL"), ("grid", "subLL"), ("groups", "subDL"), ("rows", "subLD"), ("dd", "subDD")],
     "LoopA": [("nxt", "loopB1")], "LoopB": [("nxt", "sub?"), ("back", "loopA?")],
     "LW": [("target", "any?")], "LWGen": [],
     "TaskPlain": [("a", "any?"), ("items", "subL"), ("table", "subD"), ("ma", "sub?")],
     "TaskNoGen": [("a", "any?"), ("items", "subL"), ("table", "subD"), ("ma", "sub?")],
     "TaskOut": [("a", "any?")], "TaskOutGen": [("a", "sub?")], "TaskOutPre": [("a", "any?")],
 }
-TASKS = ("TaskPlain", "TaskNoGen", "TaskOut", "TaskOutGen", "TaskOutPre")
-GEN_CLASSES = ("GenLeaf", "GenNode", "LWGen", "TaskPlain", "TaskOutGen")
+TASKS = ("TaskPlain", "TaskNoGen", "TaskOut", "TaskOutGen", "TaskOutPre", "TaskGrid")
+GEN_CLASSES = ("GenLeaf", "GenNode", "GenGrid", "LWGen", "TaskPlain", "TaskOutGen", "TaskGrid")
 
 
 # --------------------------------------------------------------------------------------------------------------------
@@ -80,11 +92,13 @@ def G(label, *nodes):
 
 
 def targets(ref):
+    """Node indexes of a reference (containers may be nested: [[j, ...], ...], {key: [j, ...]}, [{key: j}], ...)"""
     if isinstance(ref, int):
         return [ref]
-    if isinstance(ref, list):
-        return list(ref)
-    return list(ref.values())
+    out = []
+    for x in (ref if isinstance(ref, list) else ref.values()):
+        out.extend(targets(x))
+    return out
 
 
 def spec_key(spec):
@@ -230,27 +244,33 @@ def _resolve(ref, handles):
     if isinstance(ref, int):
         return handles[ref]
     if isinstance(ref, list):
-        return [handles[j] for j in ref]
-    return {k: handles[j] for k, j in ref.items()}
+        return [_resolve(x, handles) for x in ref]
+    return {k: _resolve(x, handles) for k, x in ref.items()}
 
 
 def has_generators(spec):
     return any(nd["cls"] in GEN_CLASSES for nd in spec["nodes"])
 
 
-def build(spec, ses, seal_root):
-    """Build the graph of the spec; inner tasks are submitted (dry run). If seal_root: the root is submitted when it is
-    a task, sealed otherwise."""
+def build(spec, ses, seal_root, run_mode=None, first=None, share=()):
+    """Build the graph of the spec; inner tasks are submitted (dry run, unless run_mode says otherwise). If seal_root: the
+    root is submitted when it is a task, sealed otherwise.
+    first / share: the nodes whose index is in share are not built again but taken from the Built `first` (same spec)."""
     import bounded.zoo_graphs as zoo
     from experimaestro import RunMode, setmeta
     from experimaestro.core.objects import ConfigWalkContext
     from experimaestro.xpmutils import DirectoryContext
 
+    run_mode = RunMode.DRY_RUN if run_mode is None else run_mode
     b = Built(spec)
     nodes = spec["nodes"]
     root = len(nodes) - 1
     late_refs, late_pre = [], []
     for j, nd in enumerate(nodes):
+        if j in share:
+            b.objs.append(first.objs[j])
+            b.handles.append(first.handles[j])
+            continue
         cls = zoo.CLASSES[nd["cls"]]
         kwargs = dict(nd["vals"])
         for name, ref in nd["refs"].items():
@@ -269,7 +289,7 @@ def build(spec, ses, seal_root):
         b.objs.append(o)
         b.handles.append(o)
         if nd["submit"] and j != root:
-            b.handles[j] = o.submit(run_mode=RunMode.DRY_RUN, init_tasks=[b.handles[i] for i in nd["init"]])
+            b.handles[j] = o.submit(run_mode=run_mode, init_tasks=[b.handles[i] for i in nd["init"]])
     for j, name, ref in late_refs:
         setattr(b.objs[j], name, _resolve(ref, b.handles))
     for j, pre in late_pre:
@@ -277,7 +297,7 @@ def build(spec, ses, seal_root):
     b.root = b.objs[root]
     if seal_root:
         if nodes[root]["cls"] in TASKS:
-            b.out = b.root.submit(run_mode=RunMode.DRY_RUN, init_tasks=[b.handles[i] for i in nodes[root]["init"]])
+            b.out = b.root.submit(run_mode=run_mode, init_tasks=[b.handles[i] for i in nodes[root]["init"]])
         else:
             if has_generators(spec):
                 b.ctx_dir = ses.fresh_dir()
@@ -489,7 +509,7 @@ def _fill(rng, cls, kinds, share):
 
     refs = {}
     for name, kind in SLOTS[cls]:
-        if kind in ("sub1", "sub?", "subL", "subD"):
+        if kind.startswith("sub"):
             pool = cands(SUB)
         elif kind == "any?":
             pool = cands(ANY)
@@ -512,12 +532,52 @@ def _fill(rng, cls, kinds, share):
         elif kind == "subD":
             if rng.random() < .4:
                 refs[name] = {k: pick(pool) for k in rng.sample(KEYS, rng.randint(1, 2))}
+        elif rng.random() < .5:
+            # containers nested directly in containers: several inner containers that have the same indexes / keys
+            used = []
+
+            def inner(shape):
+                if not shape:
+                    # mostly distinct elements: it is the *position* that has to tell equal-looking elements apart
+                    unused = [j for j in pool if j not in used]
+                    j = rng.choice(unused) if unused and rng.random() < .8 else pick(pool)
+                    used.append(j)
+                    return j
+                if shape[0] == "L":
+                    return [inner(shape[1:]) for _ in range(rng.randint(1, 2))]
+                return {k: inner(shape[1:]) for k in rng.sample(NESTED_KEYS, rng.randint(1, 2))}
+
+            shape = kind[3:]
+            if shape[0] == "L":
+                refs[name] = [inner(shape[1:]) for _ in range(rng.randint(1, 3))]
+            else:
+                refs[name] = {k: inner(shape[1:]) for k in rng.sample(KEYS, rng.randint(1, 2))}
     return refs
 
 
-def rand_spec(rng, label, *, gen=False, tasks=True, lws=True, cycles=True, metas=True, root="any", size=None):
-    """A random well-formed spec (None if the draw is not well formed)"""
-    size = size or rng.randint(1, 4)
+def opt_vals(rng):
+    """Values of an OptLeaf: each optional parameter left out / None / equal to its default / another value"""
+    v = {"i": rng.choice(INTS[:4])}
+    for name, (dflt, other) in OPT_PARAMS.items():
+        x = rng.random()
+        if x < .4:
+            v[name] = None
+        elif x < .5:
+            v[name] = dflt
+        elif x < .65:
+            v[name] = other
+    x = rng.random()
+    if x < .55:
+        import bounded.zoo_graphs as zoo
+
+        v["oe"] = None if x < .4 else rng.choice(list(zoo.Color))
+    return v
+
+
+def rand_spec(rng, label, *, gen=False, tasks=True, lws=True, cycles=True, metas=True, root="any", size=None, opt=False, nested=False):
+    """A random well-formed spec (None if the draw is not well formed).  opt: OptLeaf among the leaves; nested: GenGrid /
+    TaskGrid (containers nested in containers) among the inner nodes / tasks"""
+    size = size or (rng.randint(3, 5) if nested else rng.randint(1, 4))
     plan = ["plain"] * size
     if lws:
         plan += ["lw"] * rng.choice([0, 0, 1, 1, 2])
@@ -532,6 +592,13 @@ def rand_spec(rng, label, *, gen=False, tasks=True, lws=True, cycles=True, metas
     plain_inner = ["Node", "LoopB", "LoopA"] + (["GenNode", "GenNode"] if gen else ["Node"])
     lw_cls = ["LW", "LW", "LWGen"] if gen else ["LW"]
     task_cls = ["TaskNoGen", "TaskOut", "TaskOutPre"] + (["TaskPlain", "TaskOutGen", "TaskOutGen"] if gen else [])
+    if opt:
+        plain_leaf = plain_leaf + ["OptLeaf", "OptLeaf"]
+    if nested:
+        if gen:
+            plain_leaf = plain_leaf + ["GenLeaf"] * 3
+        plain_inner = plain_inner + ["GenGrid"] * 4
+        task_cls = task_cls + ["TaskGrid"] * 5
 
     def meta():
         return rng.choice([None, None, None, None, True, False]) if metas else None
@@ -540,7 +607,10 @@ def rand_spec(rng, label, *, gen=False, tasks=True, lws=True, cycles=True, metas
         refs = _fill(rng, cls, kinds, share)
         if refs is None:
             return False
-        vals = leaf_vals(rng) if cls in ("Leaf", "GenLeaf") else ({"k": rng.choice([0, 1, 2])} if rng.random() < .6 else {})
+        if cls == "OptLeaf":
+            vals = opt_vals(rng)
+        else:
+            vals = leaf_vals(rng) if cls in ("Leaf", "GenLeaf") else ({"k": rng.choice([0, 1, 2])} if rng.random() < .6 else {})
         nodes.append(N(cls, refs=refs, **kw, **vals))
         kinds.append(CAPS[cls])
         return True
@@ -561,9 +631,9 @@ def rand_spec(rng, label, *, gen=False, tasks=True, lws=True, cycles=True, metas
     if root == "task":
         rcls = rng.choice(task_cls)
     elif root == "config":
-        rcls = rng.choice(["Node", "LoopA", "LoopB"] + (["GenNode"] if gen else []))
+        rcls = rng.choice(["Node", "LoopA", "LoopB"] + (["GenNode"] if gen else []) + (["GenGrid"] * 3 if nested else []))
     else:
-        rcls = rng.choice(task_cls + ["Node", "LoopA", "LoopB"] + (["GenNode"] if gen else []))
+        rcls = rng.choice(task_cls + ["Node", "LoopA", "LoopB"] + (["GenNode"] if gen else []) + (["GenGrid"] * 3 if nested else []))
     if not add(rcls):
         add("TaskNoGen" if root == "task" else "LoopB")
     rootj = len(nodes) - 1
@@ -733,6 +803,91 @@ def gen_cross_task():
     return out
 
 
+def opt_defaults():
+    """C12: optional parameters with a default that is not None, explicitly set to None (a value of its own: it is
+    written as null and must not come back as the default), alone / nested / in lists and dicts / shared / in tasks"""
+    import bounded.zoo_graphs as zoo
+
+    names = list(OPT_PARAMS) + ["oe"]
+    none_all = {n: None for n in names}
+    out = [G("opt-all-none", N("OptLeaf", i=1, **none_all)),
+           G("opt-defaults", N("OptLeaf", i=1)),
+           G("opt-explicit-defaults", N("OptLeaf", i=1, oe=zoo.Color.GREEN, **{n: d for n, (d, _) in OPT_PARAMS.items()})),
+           G("opt-others", N("OptLeaf", i=1, oe=zoo.Color.BLUE, **{n: o for n, (_, o) in OPT_PARAMS.items()}))]
+    for n in names:
+        out.append(G(f"opt-none-{n}", N("OptLeaf", i=1, **{n: None})))
+    for k, n in enumerate(names):
+        # one None among other values (default-equal and different ones)
+        vals = {m: (None if m == n else OPT_PARAMS[m][(j + k) % 2]) for j, m in enumerate(OPT_PARAMS)}
+        out.append(G(f"opt-mixed-{n}", N("OptLeaf", i=2, **vals)))
+    out.append(G("opt-nested", N("OptLeaf", i=1, od=None), N("Node", refs={"r": 0})))
+    out.append(G("opt-nested-optional-slot", N("OptLeaf", i=1, os=None, ol=None), N("Leaf", i=0), N("Node", refs={"r": 1, "a": 0, "anyc": 0, "ma": 0})))
+    out.append(G("opt-list", N("OptLeaf", i=1, od=None), N("OptLeaf", i=1), N("OptLeaf", i=1, od=5),
+                 N("Node", refs={"r": 0, "items": [0, 1, 2, 0]})))
+    out.append(G("opt-dict", N("OptLeaf", i=1, op=None, odd=None), N("OptLeaf", i=1, **none_all), N("OptLeaf", i=1),
+                 N("Node", refs={"r": 2, "table": {"a": 0, "b": 1, "0": 2}})))
+    out.append(G("opt-shared-deep", N("OptLeaf", i=1, od=None, mo=None), N("Node", refs={"r": 0}), N("Node", refs={"r": 1, "a": 0, "items": [1, 0]})))
+    out.append(G("opt-equal-but-none", N("OptLeaf", i=1, od=None), N("OptLeaf", i=1, od=10), N("Node", refs={"r": 0, "a": 1, "items": [1, 0]})))
+    out.append(G("opt-nested-containers", N("OptLeaf", i=1, ob=None), N("OptLeaf", i=2, of=None), N("OptLeaf", i=3),
+                 N("GenGrid", refs={"grid": [[0, 2], [1]], "groups": {"a": [0], "b": [2, 1]}, "rows": [{"a": 1}, {"a": 2}], "dd": {"a": {"0": 0}}})))
+    out.append(G("opt-cycle", N("OptLeaf", i=1, oe=None), N("Node", refs={"r": 0, "a": 1, "items": [0, 1]})))
+    out.append(G("opt-meta", N("OptLeaf", i=1, od=None, meta=True), N("OptLeaf", i=1, os=None, meta=False), N("Node", refs={"r": 0, "a": 1, "ma": 0})))
+    out.append(G("opt-pretask", N("OptLeaf", i=1, od=None), N("LW", k=1, refs={"target": 0}), N("OptLeaf", i=2, oo=None, pre=[1]),
+                 N("Node", refs={"r": 2})))
+    out.append(G("opt-task-root", N("OptLeaf", i=1, od=None), N("OptLeaf", i=1, **none_all), N("TaskNoGen", refs={"a": 0, "items": [1, 0], "table": {"a": 1}, "ma": 0})))
+    out.append(G("opt-task-root-gen", N("OptLeaf", i=1, ol=None), N("TaskPlain", refs={"a": 0, "items": [0]})))
+    out.append(G("opt-task-inner", N("OptLeaf", i=1, od=None), N("TaskOut", refs={"a": 0}, submit=True), N("OptLeaf", i=2, os=None),
+                 N("TaskNoGen", refs={"a": 1, "items": [2]})))
+    out.append(G("opt-init", N("OptLeaf", i=1, od=None), N("LW", k=1, refs={"target": 0}), N("TaskNoGen", refs={"a": 0}, init=[1])))
+    for s in out:
+        assert well_formed(s), s["label"]
+    return out
+
+
+def gen_nested():
+    """C17 (and C12): configurations with generated paths in containers nested directly in containers (list of lists,
+    dict of lists, list of dicts, dict of dicts, three levels): the position includes every index / key on the way"""
+    out = []
+    for k, t in enumerate(("TaskGrid", "GenGrid")):
+        def top(refs, _t=t, **kw):
+            # the nested containers are parameters of the task itself / of a configuration nested in a task
+            if _t == "TaskGrid":
+                return [N("TaskGrid", refs=refs, **kw)]
+            return [N("GenGrid", refs=refs), N("TaskPlain", refs={"a": 3}, **kw)]
+
+        L = [N("GenLeaf", i=1), N("GenLeaf", i=2), N("GenLeaf", i=3)]
+        out.append(G(f"nest-list-of-lists{k}", *L, *top({"grid": [[0, 1], [2]]})))
+        out.append(G(f"nest-list-of-lists-square{k}", *L, *top({"grid": [[0, 1], [2, 0], [1, 2]]})))
+        out.append(G(f"nest-dict-of-lists{k}", *L, *top({"groups": {"a": [0], "b": [1, 2]}})))
+        out.append(G(f"nest-list-of-dicts{k}", *L, *top({"rows": [{"a": 0}, {"a": 1, "b": 2}]})))
+        out.append(G(f"nest-dict-of-dicts{k}", *L, *top({"dd": {"a": {"a": 0, "0": 1}, "0": {"a": 2}}})))
+        out.append(G(f"nest-equal-leaves{k}", N("GenLeaf", i=1), N("GenLeaf", i=1), N("GenLeaf", i=1),
+                     *top({"grid": [[0], [1], [2]], "groups": {"a": [0], "b": [1], "0": [2]}})))
+        out.append(G(f"nest-all{k}", *L, *top({"grid": [[0], [1]], "groups": {"0": [1], "1": [2]}, "rows": [{"0": 2}, {"0": 0}],
+                                               "dd": {"0": {"0": 0}, "1": {"0": 1}}})))
+        # inner nodes with their own generated path and their own containers
+        out.append(G(f"nest-inner-nodes{k}", N("GenLeaf", i=1), N("GenNode", refs={"items": [0]}), N("GenNode", refs={"a": 0}),
+                     *top({"grid": [[1], [2]], "rows": [{"a": 1}, {"a": 2}]})))
+    # the names of flat parameters against positions of nested ones ("items"/0 and grid/0/...)
+    out.append(G("nest-and-flat", N("GenLeaf", i=1), N("GenLeaf", i=2), N("GenLeaf", i=3), N("GenLeaf", i=4),
+                 N("TaskGrid", refs={"a": 0, "items": [1], "grid": [[2], [3]]})))
+    out.append(G("nest-cube", N("GenLeaf", i=1), N("GenLeaf", i=2), N("GenLeaf", i=3), N("GenLeaf", i=4),
+                 N("GenGrid", refs={"cube": [[[0], [1]], [[2], [3]]]}), N("TaskPlain", refs={"a": 4})))
+    out.append(G("nest-cube-ragged", N("GenLeaf", i=1), N("GenLeaf", i=2), N("GenLeaf", i=3),
+                 N("GenGrid", refs={"cube": [[[0, 1]], [[2]]]}), N("TaskGrid", refs={"items": [3], "grid": [[3]]})))
+    out.append(G("nest-grid-in-grid", N("GenLeaf", i=1), N("GenLeaf", i=2), N("GenGrid", refs={"grid": [[0], [1]]}), N("GenLeaf", i=3),
+                 N("GenLeaf", i=4), N("GenGrid", refs={"grid": [[3], [4]]}), N("TaskGrid", refs={"grid": [[2], [5]], "groups": {"a": [2], "b": [5]}})))
+    out.append(G("nest-config-root", N("GenLeaf", i=1), N("GenLeaf", i=2), N("GenLeaf", i=3),
+                 N("GenGrid", refs={"grid": [[0], [1, 2]], "groups": {"a": [0], "b": [1]}})))
+    out.append(G("nest-dep-task", N("GenLeaf", i=1), N("GenLeaf", i=2), N("TaskGrid", refs={"grid": [[0], [1]]}, submit=True),
+                 N("GenLeaf", i=3), N("GenLeaf", i=4), N("TaskGrid", refs={"a": 2, "grid": [[3], [4]]}, k=1)))
+    out.append(G("nest-pre", N("LWGen", k=1), N("LWGen", k=2), N("GenLeaf", i=1, pre=[0]), N("GenLeaf", i=2, pre=[1]),
+                 N("TaskGrid", refs={"grid": [[2], [3]]})))
+    for s in out:
+        assert well_formed(s), s["label"]
+    return out
+
+
 def dup_pretask():
     """C13: the same lightweight task is attached twice to one node (add_pretasks_from of two holders sharing it)"""
     out = [
@@ -757,7 +912,7 @@ def dual_use():
     return out
 
 
-def enum_specs(tier, rng, n_quick, n_thorough, **opts):
+def enum_specs(tier, rng, n_quick, n_thorough, prefix="rand", **opts):
     seen = set()
     n = n_quick if tier == "quick" else n_thorough
     k = tries = 0
@@ -767,7 +922,7 @@ def enum_specs(tier, rng, n_quick, n_thorough, **opts):
         if gen is None:
             gen = rng.random() < .4
         o = dict(opts, gen=gen)
-        s = rand_spec(rng, f"rand{k}", **o)
+        s = rand_spec(rng, f"{prefix}{k}", **o)
         if s is None:
             continue
         key = spec_key(s)
@@ -867,7 +1022,10 @@ def _c12(tier, seed, ses):
 
     rng = random.Random(seed)
     rep = Report()
-    specs = handcrafted() + gen_positions() + list(enum_specs(tier, rng, 140, 1500))
+    specs = handcrafted() + gen_positions() + opt_defaults() + gen_nested() + list(enum_specs(tier, rng, 140, 1500))
+    # optional parameters with non-None defaults set to None, containers nested in containers (drawn after the others)
+    specs += list(enum_specs(tier, rng, 40, 500, prefix="randopt", opt=True))
+    specs += list(enum_specs(tier, rng, 20, 250, prefix="randnest", opt=True, nested=True))
     for spec in specs:
         rep.distinct.add(spec_key(spec))
         for sealed in (False, True):
@@ -916,8 +1074,9 @@ def _c12(tier, seed, ses):
                 rep.crash("C12 save/load raises", spec, e, tag)
     zoo.reset_log()
     return rep.result("cpython: real __get_objects__/json/fromParameters, state_dict/from_state_dict, save/load on enumerated graphs",
-                      "graphs of <= 8 nodes over 13 zoo classes (sharing, cycles, meta flags, pre/init tasks, task outputs); "
-                      "no dict key 'type'; raw and sealed/submitted")
+                      "graphs of <= 8 nodes over 16 zoo classes (sharing, cycles, meta flags, pre/init tasks, task outputs, optional "
+                      "parameters with non-None defaults set to None, containers nested in containers); no dict key 'type'; raw and "
+                      "sealed/submitted")
 
 
 def _strip(c):
@@ -1170,6 +1329,42 @@ def _attempts(arg, cur):
     return out
 
 
+def _frozen_checks(rep, spec, nodes, extra=""):
+    """Every listed configuration is sealed and rejects every assignment, meta flag change and new pre-task"""
+    import bounded.zoo_graphs as zoo
+    from experimaestro import setmeta
+
+    for k, c in enumerate(nodes):
+        info = c.__xpm__
+        where = dict(node=k, cls=_clsname(c))
+        rep.check(info._sealed, "C14 a configuration reachable from a submitted task is not sealed", spec, extra, **where)
+        for arg in list(info.xpmtype.arguments.values()):
+            cur = info.values.get(arg.name)
+            for kind, value in _attempts(arg, cur):
+                raised = False
+                try:
+                    setattr(c, arg.name, value)
+                except Exception:  # noqa
+                    raised = True
+                rep.check(raised, "C14 assigning a parameter of a frozen configuration does not raise", spec, extra,
+                          param=arg.name, assigned=kind, **where)
+                rep.check(info.values.get(arg.name) is cur, "C14 assigning a parameter of a frozen configuration changes it",
+                          spec, extra, param=arg.name, assigned=kind, **where)
+        for flag in (True, False):
+            raised, m0 = False, info.meta
+            try:
+                setmeta(c, flag)
+            except BaseException:  # noqa (AssertionError)
+                raised = True
+            rep.check(raised and info.meta is m0, "C14 setmeta on a frozen configuration does not raise", spec, extra, flag=flag, **where)
+        raised, n0 = False, len(info.pre_tasks)
+        try:
+            c.add_pretasks(zoo.LW(k=55))
+        except Exception:  # noqa
+            raised = True
+        rep.check(raised and len(info.pre_tasks) == n0, "C14 add_pretasks on a frozen configuration does not raise", spec, extra, **where)
+
+
 def _c14(tier, seed, ses):
     import bounded.zoo_graphs as zoo
     from experimaestro import setmeta
@@ -1208,35 +1403,7 @@ def _c14(tier, seed, ses):
             ref_ids = [ident(c) for c in ref]
             root_id = ident(root)
             rel = [str(c.__xpm__.job.relpath) if hasattr(c.__xpm__.job, "relpath") else None for c in nodes]
-            for k, c in enumerate(nodes):
-                info = c.__xpm__
-                where = dict(node=k, cls=_clsname(c))
-                rep.check(info._sealed, "C14 a configuration reachable from a submitted task is not sealed", spec, **where)
-                for arg in list(info.xpmtype.arguments.values()):
-                    cur = info.values.get(arg.name)
-                    for kind, value in _attempts(arg, cur):
-                        raised = False
-                        try:
-                            setattr(c, arg.name, value)
-                        except Exception:  # noqa
-                            raised = True
-                        rep.check(raised, "C14 assigning a parameter of a frozen configuration does not raise", spec,
-                                  param=arg.name, assigned=kind, **where)
-                        rep.check(info.values.get(arg.name) is cur, "C14 assigning a parameter of a frozen configuration changes it",
-                                  spec, param=arg.name, assigned=kind, **where)
-                for flag in (True, False):
-                    raised, m0 = False, info.meta
-                    try:
-                        setmeta(c, flag)
-                    except BaseException:  # noqa (AssertionError)
-                        raised = True
-                    rep.check(raised and info.meta is m0, "C14 setmeta on a frozen configuration does not raise", spec, flag=flag, **where)
-                raised, n0 = False, len(info.pre_tasks)
-                try:
-                    c.add_pretasks(zoo.LW(k=55))
-                except Exception:  # noqa
-                    raised = True
-                rep.check(raised and len(info.pre_tasks) == n0, "C14 add_pretasks on a frozen configuration does not raise", spec, **where)
+            _frozen_checks(rep, spec, nodes)
             d = first_diff(before, canon([root]))
             rep.check(d is None, "C14 the frozen graph changed", spec, diff=d)
             ids2 = [ident(c) for c in nodes]  # first computation for the inner nodes: uses the current values
@@ -1249,7 +1416,215 @@ def _c14(tier, seed, ses):
         except Exception as e:  # noqa
             rep.crash("C14 check raises", spec, e)
     return rep.result("cpython: real submit(DRY_RUN)/seal, then every assignment / setmeta / add_pretasks on every reachable configuration",
-                      "graphs of <= 8 nodes over 13 zoo classes; per parameter: equal, different, None, equal-but-distinct values")
+                      "graphs of <= 8 nodes over 16 zoo classes; per parameter: equal, different, None, equal-but-distinct values")
+
+
+# C14, second part: duplicate submissions.  The scheduler recognises a job whose identifier is already registered in the
+# experiment only in NORMAL run mode: these cases run a real experiment (tiny jobs) in a subprocess of their own
+# (`_c14_dup_main`; the dry-run experiment of the Session and a real one do not live together in one process).  A task graph
+# is submitted for real; then an *equal* graph is submitted again (all its tasks are duplicates: submit() hands back what
+# the first submission returned, so the second graph refers to the tasks of the first one), with or without sharing the
+# plain configurations / everything but the root with the first graph.  Afterwards everything reachable from either graph
+# must still be frozen, with the identifiers and job paths it had.
+
+DUP_MARK = "@@C14-DUP@@ "
+DUP_QUICK = (
+    [f"task-chain{k}" for k in range(len(TASKS))] + [f"task-root{k}" for k in range(len(TASKS))]
+    + ["task-out-shared", "task-out-pre", "task-inner-pre-init", "two-inner", "shared-gen", "meta-task", "pre-of-pre", "init-and-pre",
+       "init-task", "loop-task-root", "gen-task-lists", "gen-pre-init", "gen-dep-task", "gen-dep-output", "xtask-shared-config",
+       "xtask-output-two-consumers", "xtask-output-wraps-task-parameter", "xtask-shared-pretask", "nest-dep-task"]
+)
+DUP_NOT_EXERCISED = "C14 no duplicate submission was recognised by the scheduler (nothing checked)"
+
+
+def dup_specs(tier, seed):
+    pool = handcrafted() + gen_positions() + gen_cross_task() + gen_nested()
+    if tier == "quick":
+        pool = [s for s in pool if s["label"] in DUP_QUICK]
+    else:
+        pool += list(enum_specs(tier, random.Random(seed), 0, 80, prefix="randdup", root="task"))
+    # an upstream submitted task as parameter first (failures of the first cases are the ones reported)
+    pool.sort(key=lambda s: DUP_QUICK.index(s["label"]) if s["label"] in DUP_QUICK else len(DUP_QUICK))
+    return [s for s in pool if s["nodes"][-1]["cls"] in TASKS and crashing_submission(s, True) is None]
+
+
+def _salt(spec, n):
+    """Copy of the spec in which every task has a value of k of its own: jobs of different cases never share an identifier"""
+    import copy
+
+    s = copy.deepcopy(spec)
+    for j, nd in enumerate(s["nodes"]):
+        if nd["cls"] in TASKS:
+            nd["vals"]["k"] = 1000 * (n + 1) + j
+    return s
+
+
+def _dup_variants(spec):
+    """(name, indexes of the nodes that the second graph shares with the first one)"""
+    nodes = spec["nodes"]
+    root = len(nodes) - 1
+    out = [("fresh", frozenset())]
+    back = any(root in targets(ref) for nd in nodes[:-1] for ref in nd["refs"].values()) or any(root in nd["pre"] for nd in nodes[:-1])
+    if root > 0 and not back:
+        configs = frozenset(j for j in range(root) if nodes[j]["cls"] not in TASKS)
+        if configs and len(configs) < root:
+            out.append(("shared-configs", configs))
+        out.append(("shared-all", frozenset(range(root))))
+    return out
+
+
+def _union(*walks):
+    seen, out = set(), []
+    for w in walks:
+        for c in w:
+            if id(c) not in seen:
+                seen.add(id(c))
+                out.append(c)
+    return out
+
+
+def _relpaths(nodes):
+    return [str(c.__xpm__.job.relpath) if hasattr(c.__xpm__.job, "relpath") else None for c in nodes]
+
+
+def _c14_dup(tier, seed, ses):
+    from experimaestro import RunMode
+
+    rep = Report()
+    exercised = not_dup = 0
+    N_ID = "C14 identifier changed after attempts to modify a frozen configuration"
+    for n, spec0 in enumerate(dup_specs(tier, seed)):
+        spec = _salt(spec0, n)
+        rep.distinct.add(spec_key(spec0))
+        try:
+            refb = build(spec, ses, True)  # equal graph, dry run, never touched
+            ref_ids = [ident(c) for c in walk(refb.root)]
+            ref_by_index = [(ident(o), ident(h)) for o, h in zip(refb.objs, refb.handles)]
+            b1 = build(spec, ses, True, run_mode=RunMode.NORMAL)
+            nodes1 = walk(b1.root)
+            ids1, rel1, before = [ident(c) for c in nodes1], _relpaths(nodes1), canon([b1.root])
+        except Exception as e:  # noqa
+            rep.crash("C14 graph could not be built/submitted", spec, e, "/dup/first")
+            continue
+        rep.check(ids1 == ref_ids, "C14 identifiers of a submitted graph differ from those of an equal graph (dry run)", spec, "/dup/first")
+        for variant, share in _dup_variants(spec):
+            tag = "/dup/" + variant
+            try:
+                b2 = build(spec, ses, True, run_mode=RunMode.NORMAL, first=b1, share=share)
+            except Exception as e:  # noqa
+                rep.crash("C14 duplicate submission raises", spec, e, tag)
+                continue
+            if b2.out is not b1.out:
+                not_dup += 1  # not a duplicate for the scheduler (e.g. the first job already failed): nothing to check
+                continue
+            exercised += 1
+            try:
+                dups = [walk(o) for j, o in enumerate(b2.objs) if j not in share and spec["nodes"][j]["cls"] in TASKS]
+                nodes2 = walk(b2.root)
+                # what the first submission froze (also reachable from the duplicate when shared), then the rest
+                _frozen_checks(rep, spec, nodes1, tag + "/first-graph")
+                mine = {id(c) for c in nodes1}
+                _frozen_checks(rep, spec, [c for c in _union(nodes2, *dups) if id(c) not in mine], tag + "/duplicate-graph")
+                d = first_diff(before, canon([b1.root]))
+                rep.check(d is None, "C14 the frozen graph changed", spec, tag, diff=d)
+                ids = [ident(c) for c in nodes1]
+                bad = [k for k in range(len(nodes1)) if ids[k] != ids1[k] or k >= len(ref_ids) or ids[k] != ref_ids[k]]
+                rep.check(not bad, N_ID, spec, tag, graph="first submission", nodes=bad[:4])
+                # (the duplicate graph need not have the sharing pattern of the spec: it refers to tasks of the first graph,
+                # which keep their own parameters; its nodes are compared spec index by spec index)
+                bad = [j for j, (o, h) in enumerate(zip(b2.objs, b2.handles)) if (ident(o), ident(h)) != ref_by_index[j]]
+                rep.check(not bad, N_ID, spec, tag, graph="duplicate", spec_nodes=bad[:4])
+                rel = _relpaths(nodes1)
+                bad = [k for k in range(len(nodes1)) if rel[k] != rel1[k]]
+                rep.check(not bad, "C14 job path changed after attempts to modify a frozen configuration", spec, tag, nodes=bad[:4])
+            except Exception as e:  # noqa
+                rep.crash("C14 check raises", spec, e, tag)
+    if not exercised:
+        rep.check(False, DUP_NOT_EXERCISED, G("none"))
+    res = rep.result("cpython: real experiment in NORMAL run mode (subprocess, tiny jobs): a task graph is submitted, then an equal graph "
+                     "(duplicate jobs) is submitted; every assignment / setmeta / add_pretasks on everything reachable from both",
+                     f"{exercised} duplicate submissions: equal graph built afresh / sharing its plain configurations / sharing all but "
+                     "the root with the first graph")
+    if not_dup:
+        res["bound"] += f" ({not_dup} left out: submissions that the scheduler did not treat as duplicates)"
+    return res
+
+
+def _c14_dup_main(argv):
+    """Subprocess side: argv = [tier, seed, temporary directory (owned by the caller)]"""
+    import sys
+
+    from experimaestro import experiment
+    from experimaestro.scheduler import FailedExperiment
+
+    tier, seed, tmp = argv[0], int(argv[1]), Path(argv[2])
+    logging.disable(logging.CRITICAL)
+
+    class Ses:
+        counter = 0
+
+        def fresh_dir(self):
+            self.counter += 1
+            return tmp / "ctx" / str(self.counter)
+
+    with open(os.devnull, "w") as null, contextlib.redirect_stderr(null):
+        try:
+            with experiment(tmp / "ws", "dup", port=-1) as xp:
+                xp.setenv("PYTHONPATH", _pythonpath())
+                res = _c14_dup(tier, seed, Ses())
+                sys.stdout.write("\n" + DUP_MARK + json.dumps(res, default=str) + "\n")
+                sys.stdout.flush()
+        except FailedExperiment:
+            pass  # a failed job does not matter here
+
+
+def _pythonpath():
+    import experimaestro
+
+    return f"{Path(experimaestro.__file__).resolve().parents[1]}:{Path(__file__).resolve().parents[1]}"
+
+
+def _dup_start(tier, seed):
+    import subprocess
+    import sys
+
+    tmp = tempfile.mkdtemp(prefix="xpm-bounded-dup-")
+    env = dict(os.environ, PYTHONPATH=_pythonpath(), PYTHONWARNINGS="ignore")
+    # bounded.wire: the same families are switched off as in the calling process
+    code = "import sys, bounded.wire, bounded.graphs as G; G._c14_dup_main(sys.argv[1:])"
+    proc = subprocess.Popen([sys.executable, "-c", code, tier, str(seed), tmp], stdin=subprocess.DEVNULL, stdout=subprocess.PIPE,
+                            stderr=subprocess.PIPE, env=env, cwd=str(Path(__file__).resolve().parents[1]), text=True,
+                            start_new_session=True)
+    return proc, tmp
+
+
+def _dup_collect(proc, tmp, timeout):
+    import shutil
+    import signal
+    import subprocess
+
+    problem = None
+    try:
+        try:
+            out, err = proc.communicate(timeout=timeout)
+        except subprocess.TimeoutExpired:
+            try:
+                os.killpg(proc.pid, signal.SIGKILL)
+            except OSError:
+                pass
+            out, err = proc.communicate(timeout=10)
+            problem = f"timeout after {timeout} s"
+        for line in reversed(out.splitlines()):
+            if line.startswith(DUP_MARK):
+                res = json.loads(line[len(DUP_MARK):])
+                if problem:  # results were produced, but the experiment did not end
+                    res["failures"].append(dict(name="C14 duplicate-submission cases did not complete", case="dup", problem=problem))
+                return res
+        problem = problem or f"exit code {proc.returncode}, no result"
+        return dict(tool="subprocess", bound="", cases=0, distinct=0,
+                    failures=[dict(name="C14 duplicate-submission cases did not complete", case="dup", problem=problem, stderr=err[-600:])])
+    finally:
+        shutil.rmtree(tmp, ignore_errors=True)
 
 
 # --------------------------------------------------------------------------------------------------------------------
@@ -1282,9 +1657,12 @@ XTASK = "C17 generated path of a configuration shared with an already submitted 
 def _c17(tier, seed, ses2, ses):
     rng = random.Random(seed)
     rep = Report()
-    specs = gen_positions() + gen_cross_task() + [s for s in handcrafted() if has_generators(s)]
+    specs = gen_positions() + gen_cross_task() + gen_nested() + [s for s in handcrafted() if has_generators(s)]
     specs += list(enum_specs(tier, rng, 110, 1200, gen=True, root="task"))
     specs += list(enum_specs(tier, rng, 40, 300, gen=True, root="config", tasks=False))
+    # containers nested directly in containers (drawn after the others)
+    specs += list(enum_specs(tier, rng, 40, 500, prefix="randnest", gen=True, root="task", nested=True))
+    specs += list(enum_specs(tier, rng, 15, 150, prefix="randnestc", gen=True, root="config", tasks=False, nested=True))
     for spec in specs:
         rep.distinct.add(spec_key(spec))
         b = rep.build(spec, ses, True, "C17 graph could not be built/submitted")
@@ -1342,7 +1720,8 @@ def _c17(tier, seed, ses2, ses):
             rep.crash("C17 check raises", spec, e)
     return rep.result("cpython: real submit(DRY_RUN) inside a dry-run experiment (seal under a DirectoryContext for non-task roots); "
                       "all pairs of generated parameters; two builds, two workspaces",
-                      "graphs of <= 8 nodes, generated paths at top level / nested / in lists / in dicts / on pre- and init tasks / "
+                      "graphs of <= 8 nodes, generated paths at top level / nested / in lists / in dicts / in containers nested in "
+                      "containers (list of lists, dict of lists, list of dicts, dict of dicts, three levels) / on pre- and init tasks / "
                       "on shared configurations / in cycles (non-task roots); plain dict keys (no '/')")
 
 
@@ -1403,5 +1782,16 @@ def _entry(name, body, sessions=1):
 
 run_c12 = _entry("run_c12", _c12)
 run_c13 = _entry("run_c13", _c13)
-run_c14 = _entry("run_c14", _c14)
+_run_c14_graphs = _entry("run_c14", _c14)
+
+
+def run_c14(tier, seed):
+    """Enumerated graphs (dry run) + duplicate submissions in a real experiment (subprocess, runs meanwhile)"""
+    proc, tmp = _dup_start(tier, seed)
+    try:
+        res = _run_c14_graphs(tier, seed)
+    finally:
+        dup = _dup_collect(proc, tmp, 150 if tier == "quick" else 900)
+    return dict(tool=res["tool"] + " || " + dup["tool"], bound=res["bound"] + " || " + dup["bound"], cases=res["cases"] + dup["cases"],
+                distinct=res["distinct"] + dup["distinct"], failures=res["failures"] + dup["failures"])
 run_c17 = _entry("run_c17", _c17, sessions=2)
